@@ -16,7 +16,7 @@ fn c11_debug() {
         set.forbid(&builtin_permissions::PRINT_DEBUG);
     }
     let rt: RtRec = runtime_rec(RuntimeLimits { permissions: set, ..Default::default() });
-    let ns = empty_scope(&rt);
+    let ns = crate::runtime_scope::verif_kani::bare_scope();
     let args = vec![val(XValue::Bool(kani::any()), &rt)];
     let r = nc(&args, &ns, false, rt.clone());
     let (w, c, g) = effects();
@@ -44,7 +44,7 @@ fn c11_sleep_denied() {
     add_generic_priv_sleep(&mut root).unwrap();
     let nc = last_native(&root);
     let rt: RtRec = runtime_rec(RuntimeLimits::default());
-    let ns = empty_scope(&rt);
+    let ns = crate::runtime_scope::verif_kani::bare_scope();
     // poisoned arguments: evaluating them would be a (different) failure
     let args = vec![err("poison", &rt), err("poison", &rt)];
     let r = nc(&args, &ns, false, rt.clone());
